@@ -847,6 +847,19 @@ func (s *appStream) genBlock(r *tr.Rng) {
 	} else {
 		s.emit(begin, "ok")
 	}
+	// the typed request items of this block's payload, as the decoder of the execution-layer requests sees them
+	if eb.Payload != nil && !halt {
+		var hexes []string
+		for _, it := range eb.Payload.Requests {
+			if len(it) == 0 {
+				hexes = append(hexes, "e")
+			} else {
+				hexes = append(hexes, tr.Hex(it))
+			}
+		}
+		ro := tr.NewOp("reqdecode/block-payload", "req.decode", "raw", tr.StrList(hexes))
+		s.emit(ro, (&reqdecodeStream{}).Exec(ro))
+	}
 	// the execution-block message
 	pl := eb.Payload
 	eo := tr.NewOp("ethblock", "tx.ethblock", "ante", "finalize", "signer", sdk.AccAddress(proposer).String(), "signers", 1, "memo", 0, "timeout", ethTimeout, "height", height,
